@@ -30,7 +30,7 @@ TRACE = ("FaultTrace.tla", "FaultTrace.cfg")
 # allows, else a prefix of this list (and says so in the stats)
 SCRIPTS = ["params", "refuse", "ue14", "vnadata2", "trl", "calstore", "te10",
            "corr", "lm", "lmw", "e12", "ue10", "t8", "t8p3", "load", "bulk",
-           "u16", "vnadata", "yaml", "t16", "auto16", "ts"] + [
+           "u16", "vnadata", "yaml", "t16", "auto16", "ts", "resolve", "resolve2"] + [
                "solt-%s-%s" % (t, f)
                for t in ("t8", "u8", "te10", "ue10", "ue14", "e12")
                for f in ("m", "ab")]
@@ -149,12 +149,14 @@ def issues_from_validation(ctx, res):
 
 def issues_from_crashes(ctx, crashes):
     by_sig = {}
+    kinds = {}
     for c in crashes:
         s = vlib.sanitizer_signature(c["stderr"])
         if s is None:
             s = ("timeout" if c["rc"] == -9 else "exit%d" % c["rc"], "?")
         sig = "FaultX:crash:%s:%s" % s
         by_sig.setdefault(sig, []).append(c)
+        kinds[sig] = s
     issues = []
     for sig, cs in by_sig.items():
         c = cs[0]
@@ -162,7 +164,7 @@ def issues_from_crashes(ctx, crashes):
                              "case %s\nrc %s\n%s" % (c["case"], c["rc"],
                                                      c["stderr"]))
         cases = [x["case"] for x in cs if x["case"]]
-        kind, frames = sig.split(":", 3)[2:]
+        kind, frames = kinds[sig]
         issues.append(vlib.Issue(
             {"C12"}, sig,
             "driver process died under a single allocation failure: %s in %s "
